@@ -3,10 +3,10 @@ from .common import *
 from . import c01
 from oracle import c3dref, obsmodel
 ID = 'C03'
-HARNESSES = ['h_c01.cpp', 'h_load.cpp']
+HARNESSES = ['h_c01.cpp', 'h_load.cpp', 'h_hist.cpp']
 LEVEL = 'model_checking'
 BUDGET = {'quick': 280, 'thorough': 3000}
-BOUNDS = {'quick': 'objects built through the API (C01 quick shapes/orders/extra parameters) and loaded-then-edited objects; parameter-section length steered through ALL 512 residues modulo the block size (520 consecutive lengths); plus objects whose parameter section fills 254 and 255 blocks (data start block 256/257); payload symbolic (data floats free, so the byte following the parameter section is any value)',
+BOUNDS = {'quick': 'objects built through the API (C01 quick shapes/orders/extra parameters), objects reached by every history of 2 public calls (56-operation alphabet; 3 calls and more start states in thorough) from the declared and the populated start state, and loaded-then-edited objects; parameter-section length steered through ALL 512 residues modulo the block size (520 consecutive lengths); plus objects whose parameter section fills 254 and 255 blocks (data start block 256/257); payload symbolic (data floats free, so the byte following the parameter section is any value)',
           'thorough': 'two full sweeps of the residues (1040 lengths, sections of 2-4 blocks); C01 thorough shapes'}
 OUTSIDE = 'histories deeper than load + 2 edits; parameter sections longer than 3 blocks'
 ASSUMPTIONS = ['the reference decoder oracle/c3dref.py follows only the file\'s own pointers (header byte 1, POINT:DATA_START, next-offsets)']
@@ -26,6 +26,10 @@ def jobs(tier, seed):
     # parameter sections of 253..255 blocks (the data then start at block 255..257: the block numbers no longer fit one byte)
     for v in ((492, 494) if tier == 'quick' else (488, 490, 492, 494)):
         out.append({'entry': 'h_c17', 'harness': 'h_c01.cpp', 'cfg': {'kind': 9, 'value': v, 'obsfile': 1}, 'name': 'many-blocks'})
+    # objects reached through a history of public calls (56-operation alphabet), then saved
+    from . import histcommon
+    for j in histcommon.hist_jobs(tier, seed, finish=4):
+        if j['cfg']['start'] in ((1, 2) if tier == 'quick' else (0, 1, 2, 3, 6)): out.append(j)
     return out
 
 def struct_obligations(cells, M, job, st, prefix):
@@ -88,7 +92,14 @@ def obligations(sec, job, st):
         O += obsmodel.compare_loaded_with_file(D, frames, M, 'saved/content', {'match': 'position', 'skip_data_start_value': True, 'skip_data_start_word': True, 'file_is_actual': True})
     return O
 
+def hist_final(sec, st, tag):
+    if tag and tag != '@rate-changed-with-data': return []      # gap frames / empty frames / rates zeroed with data: recorded findings (C05), outside this claim
+    return obligations(sec, None, st)
+
 def run_job(engine, job):
+    if job.get('name') == 'hist':
+        from . import histcommon
+        return histcommon.explore(engine, job, ID, lambda *a: [], final=hist_final)
     if job['name'] == 'many-blocks': return std_run(engine, job, obligations, 'c17.end', ID, job['name'], wall=280, maxsteps=400_000_000)
     return std_run(engine, job, obligations, 'save.end', ID, job['name'])
 
@@ -96,7 +107,7 @@ def native_confirm(nat, v):
     out, sec = native_sections(nat, v['replay'])
     if out['rc'] != 0: return None
     obls = obligations(sec, v['job'], None)
-    locus = v['id'].split('/', 2)[-1]
+    locus = v['id'].split('/', 2)[-1].split('@')[0]
     bad = [o.locus for o in obls if o.bad is True]
     if locus in bad: return True
     # a structural defect can surface under another structural rule once the payload is concrete (e.g. a missing end
